@@ -453,5 +453,10 @@ func (b *ErrorBuilder) Build() error {
 		panic("Must include ErrorInfo in error details.")
 	}
 
-	return b.err
+	// The built error gets its own details slice, so that the builder can be
+	// reused and the error extended (AddDetails) without one changing the other.
+	err := b.err
+	err.details = append(make([]proto.Message, 0, len(b.err.details)), b.err.details...)
+
+	return err
 }
